@@ -92,11 +92,17 @@ class Handler:
                     and {src(g.elt.left), src(g.elt.comparators[0])} == {src(g.generators[0].target), f'{self.star[0]}[0]'}:
                 self.requires.append('all')
                 return
-        if isinstance(t, ast.UnaryOp) and isinstance(t.op, ast.Not):
+        if isinstance(t, ast.UnaryOp) and isinstance(t.op, ast.Not) and isinstance(t.operand, ast.BoolOp) and isinstance(t.operand.op, ast.Or) and len(t.operand.values) == 2:
             # locate-style: not (dimtol == Dimensionless and tol is None or dimtol == dimgeom)
-            names = [n for n in self.dimnames if n in src(t)]
-            if len(names) == 2:
-                self.requires.append(('optional', self.dimnames.index(names[0]), self.dimnames.index(names[1])))
+            absent, present = t.operand.values
+            a_names = [n for n in self.dimnames if n in {x.id for x in ast.walk(absent) if isinstance(x, ast.Name)}]
+            p_names = [src(x) for x in ([present.left] + present.comparators if isinstance(present, ast.Compare) else [])]
+            if len(a_names) == 1 and len(p_names) == 2 and all(n in self.dimnames for n in p_names) and isinstance(present.ops[0], ast.Eq):
+                if a_names[0] in p_names:
+                    other = [n for n in p_names if n != a_names[0]][0]
+                    self.requires.append(('optional', self.dimnames.index(a_names[0]), self.dimnames.index(other)))
+                else:
+                    self.requires.append(('optional-mismatch', a_names[0], tuple(p_names)))
                 return
         self.problems.append(f'unrecognised guard `{src(t)}`')
 
@@ -250,9 +256,16 @@ def check_dispatch(model, rep, oracle):
             if cat['operands'] == 'special':
                 # locate: geom == coords, tol and maxdist optional-equal geom
                 eqs = [r for r in h.requires if isinstance(r, frozenset)]
-                opts = [r for r in h.requires if isinstance(r, tuple)]
-                if len(eqs) != 1 or len(opts) != 2 or h.result != ('plain',):
+                opts = [r for r in h.requires if isinstance(r, tuple) and r[0] == 'optional']
+                mism = [r for r in h.requires if isinstance(r, tuple) and r[0] == 'optional-mismatch']
+                if mism:
+                    problems.append(f'the guard for the optional operand with dimension `{mism[0][1]}` compares {mism[0][2]} instead of `{mism[0][1]}` with the geometry dimension: that operand is accepted with any dimension')
+                elif len(eqs) != 1 or len(opts) != 2 or h.result != ('plain',):
                     problems.append('locate must require geom==coords, tol and maxdist of the geometry dimension (or None), and return a plain value')
+                else:
+                    geom = sorted(eqs[0])[0]
+                    if any(o[2] != geom for o in opts) or len({o[1] for o in opts}) != 2:
+                        problems.append('tol and maxdist must each be compared with the dimension of the geometry')
             elif cat['operands'] in (['*'], ['*0']):
                 if not h.star:
                     problems.append('expected all operands to be unpacked')
